@@ -7,6 +7,8 @@ package generation
 // linearity with the mg/L -> kg/m3 factor 1e-3, zero load for a zero driver.
 
 //@ func emcDWC(quickflow, slowflow, emc, dwc, quickLoad, slowLoad, totalLoad)
+//@   kernel
+//@   states none
 //@   noalias
 //@   safety C16
 //@   requires quickflow.len == slowflow.len && quickflow.len == quickLoad.len && quickflow.len == slowLoad.len && quickflow.len == totalLoad.len
@@ -19,6 +21,8 @@ package generation
 //@   loop 0 invariant forall(t, 0, i, quickLoad.at(t) == quickflow.at(t)*emc*0.001 && slowLoad.at(t) == slowflow.at(t)*dwc*0.001)
 
 //@ func fixedConcentration(flow, conc, load)
+//@   kernel
+//@   states none
 //@   noalias
 //@   safety C16
 //@   requires flow.len == load.len
@@ -29,6 +33,8 @@ package generation
 //@   loop 0 invariant forall(t, 0, i, load.at(t) == flow.at(t)*conc*0.001)
 
 //@ func passLoadIfFlow(flow, inputLoad, scalingFactor, outputLoad)
+//@   kernel
+//@   states none
 //@   noalias
 //@   safety C16
 //@   requires flow.len == inputLoad.len && flow.len == outputLoad.len
@@ -39,6 +45,8 @@ package generation
 //@   loop 0 invariant forall(t, 0, day, outputLoad.at(t) == ite(flow.at(t) > 0.00000001, inputLoad.at(t)*scalingFactor, 0.0))
 
 //@ func dissolvedNutrients(quickflow, slowflow, dissConst_EMC, dissConst_DWC, quickflowConstituent, slowflowConstituent, totalLoad)
+//@   kernel
+//@   states none
 //@   noalias
 //@   safety C16
 //@   requires quickflow.len == slowflow.len && quickflow.len == quickflowConstituent.len && quickflow.len == slowflowConstituent.len && quickflow.len == totalLoad.len
@@ -48,6 +56,8 @@ package generation
 //@   loop 0 step [C16.dissolved-linear] quickflowConstituent.at(day) == dissConst_EMC*quickflow.at(day)*0.001 && slowflowConstituent.at(day) == dissConst_DWC*slowflow.at(day)*0.001
 
 //@ func particulateNutrients(fineSheet, coarseSheet, fineGully, coarseGully, slowflow, area, nutSurfSoilConc, hillDeliveryRatio, enrichment, nutSubSoilConc, enrichmentGully, gullyDeliveryRatio, nutrientDWC, doCreams, quickflowConstituent, slowflowConstituent, totalLoad, hillslopeContribution, gullyContribution)
+//@   kernel
+//@   states none
 //@   noalias
 //@   safety C16
 //@   requires fineSheet.len == coarseSheet.len && fineGully.len == coarseSheet.len && coarseGully.len == coarseSheet.len && slowflow.len == coarseSheet.len
@@ -60,6 +70,8 @@ package generation
 //@   loop 0 step [C16.particulate-slow] slowflowConstituent.at(day) == slowflow.at(day)*nutrientDWC*0.001
 
 //@ func bankErosion(downstreamFlowVolume, totalVolume, riparianVegPercent, maxRiparianVegEffectiveness, soilErodibility, bankErosionCoeff, linkSlope, bankFullFlow, bankMgtFactor, sedBulkDensity, bankHeight, linkLength, dailyFlowPowerFactor, longTermAvDailyFlow, soilPercentFine, durationInSeconds, bankErosionFine, bankErosionCoarse)
+//@   kernel
+//@   states none
 //@   noalias
 //@   safety C16
 //@   requires downstreamFlowVolume.len == totalVolume.len && downstreamFlowVolume.len == bankErosionFine.len && downstreamFlowVolume.len == bankErosionCoarse.len
@@ -73,6 +85,8 @@ package generation
 //@   loop 0 step [C16.bank-nonneg] bankErosionFine.at(i) >= 0 && bankErosionCoarse.at(i) >= 0
 
 //@ func sednetGully(quickflow, year, annualRunoff_ts, annualLoad_ts, yearDisturbance, gullyEndYear, area, averageGullyActivityFactor, annualAverageSedimentSupply, percentFine, managementPracticeFactor, longtermRunoffFactor, dailyRunoffPowerFactor, sdrFine, sdrCoarse, timestepInSeconds, fineLoad, coarseLoad, generatedFine, generatedCoarse, calc)
+//@   kernel
+//@   states none
 //@   noalias
 //@   safety C16
 //@   requires quickflow.len == year.len && quickflow.len == annualRunoff_ts.len && quickflow.len == annualLoad_ts.len && quickflow.len == fineLoad.len && quickflow.len == coarseLoad.len && quickflow.len == generatedFine.len && quickflow.len == generatedCoarse.len
@@ -85,6 +99,8 @@ package generation
 //@   loop 0 step [C16.gully-zero-driver] implies(quickflow.at(day) == 0 || annualRunoff_ts.at(day) == 0 || year.at(day) < yearDisturbance, fineLoad.at(day) == 0 && coarseLoad.at(day) == 0)
 
 //@ func usleFine(quickflow, slowflow, rainfall, klsc, klscFine, covOrCFact, dayOfYear, s, p, rainThreshold, alpha, beta, eta, a1, a2, a3, dwc, avK, avLS, avFines, area, maxConc, usleHSDRFine, usleHSDRCoarse, timeStepInSeconds, quickLoadFine, slowLoadFine, quickLoadCoarse, slowLoadCoarse, totalFineLoad, totalCoarseLoad, generatedLoadFine, generatedLoadCoarse)
+//@   kernel
+//@   states none
 //@   noalias
 //@   safety C16
 //@   requires quickflow.len == slowflow.len && quickflow.len == rainfall.len && quickflow.len == klsc.len && quickflow.len == klscFine.len && quickflow.len == covOrCFact.len && quickflow.len == dayOfYear.len
@@ -99,3 +115,12 @@ package generation
 //@   loop 0 step [C16.usle-fine-fraction] generatedLoadFine.at(day) * (klsc.at(day) - klscFine.at(day)) == generatedLoadCoarse.at(day) * klscFine.at(day)
 //@   loop 0 step [C16.usle-zero-driver] implies(rainfall.at(day) <= rainThreshold || quickflow.at(day) <= 0, quickLoadFine.at(day) == 0 && quickLoadCoarse.at(day) == 0 && generatedLoadFine.at(day) == 0 && generatedLoadCoarse.at(day) == 0)
 //@   loop 0 step [C16.usle-slow-linear] slowLoadFine.at(day) == dwc*slowflow.at(day)*0.001
+
+//@ func sednetGullyOrig
+//@   structural only
+//@   kernel
+//@   states none
+//@ func sednetGullyDerm
+//@   structural only
+//@   kernel
+//@   states none
